@@ -9,6 +9,7 @@
    `part_events st p` are the stored events of partition p in stored order, `pos_of st p pos` is the flat index of
    partition p's position inside a Pos string, `eff_flt` the filter in effect. *)
 From LR Require Import lib.Base model.Paging proofs.PagingP.
+From LR Require Import gen.Consts.
 From LR Require Import proofs.PagingContentP.
 From LR Require Import proofs.PagingRetryP.
 From Coq Require Import Permutation.
@@ -238,3 +239,8 @@ Example C03_ex_fixed_provider :
   /\ map (fun r => map (fun e => (o_ts e, o_flds e)) (rs_events r)) (run_from false false (fun _ => true) choose_min true ex1_store PHead ex1_steps)
   = [[(1%Z, [])]; [(2%Z, [])]; [(2%Z, [])]].
 Proof. vm_compute. split; reflexivity. Qed.
+
+(* the page-limit clamp of the model is backend.QueryMaxLimit as the source has it now (coq/gen/Consts.v is regenerated
+   from /repo on every run) *)
+Example C03_constants : query_max_limit = go_QueryMaxLimit.
+Proof. reflexivity. Qed.
